@@ -10,14 +10,14 @@ Open Scope Z_scope.
 (* every quota answered is at least 1 *)
 Theorem C07_floor : forall i, ints_ok i ->
   (forall next, 1 <= fst (calc_with next i)) /\
-  (forall q b, i_count i = false -> calc_next_quota i = Some (q, b) -> 1 <= q).
+  (i_count i = false -> 1 <= fst (calc_next_quota i)).
 Proof. exact floor_both. Qed.
 Print Assumptions C07_floor.
 
 (* ... and at most the global limit (a limit below 1 cannot hold the minimum quota) *)
 Theorem C07_cap : forall i, ints_ok i ->
   (forall next, fst (calc_with next i) <= Z.max 1 (i_total i)) /\
-  (forall q b, i_count i = false -> calc_next_quota i = Some (q, b) -> q <= Z.max 1 (i_total i)).
+  (i_count i = false -> fst (calc_next_quota i) <= Z.max 1 (i_total i)).
 Proof. exact cap_both. Qed.
 Print Assumptions C07_cap.
 
@@ -25,22 +25,22 @@ Print Assumptions C07_cap.
    the limit, the minimum quota 1 aside.  current >= 0: what an honest instance reports *)
 Theorem C07_step_safe : forall i, ints_ok i -> 0 <= i_current i -> i_allocated i <= i_total i ->
   (forall next, i_allocated i - i_current i + fst (calc_with next i) <= i_total i \/ fst (calc_with next i) = 1) /\
-  (forall q b, i_count i = false -> calc_next_quota i = Some (q, b) ->
-     i_allocated i - i_current i + q <= i_total i \/ q = 1).
+  (i_count i = false ->
+     i_allocated i - i_current i + fst (calc_next_quota i) <= i_total i \/ fst (calc_next_quota i) = 1).
 Proof. exact step_safe_both. Qed.
 Print Assumptions C07_step_safe.
 
 (* sum > total (e.g. the limit was lowered): no quota grows *)
 Theorem C07_no_growth_when_over : forall i, ints_ok i -> 0 <= i_current i -> i_total i < i_allocated i ->
   (forall next, fst (calc_with next i) <= Z.max 1 (i_current i)) /\
-  (forall q b, i_count i = false -> calc_next_quota i = Some (q, b) -> q <= Z.max 1 (i_current i)).
+  (i_count i = false -> fst (calc_next_quota i) <= Z.max 1 (i_current i)).
 Proof. exact no_growth_both. Qed.
 Print Assumptions C07_no_growth_when_over.
 
 (* token bucket: the burst never exceeds the global burst (any input); under a limit >= 1 and a
-   global burst >= 0 it lies in [0, global burst], the full quota gets the full burst, and the burst is scaled with the quota: under the same
-   limit and global burst, whatever else differs between two calls, the larger quota never gets
-   the smaller burst *)
+   global burst >= 0 it lies in [0, global burst], the full quota gets the full burst, and the
+   burst is scaled with the quota: under the same limit and global burst, whatever else differs
+   between two calls, the larger quota never gets the smaller burst *)
 Theorem C07_burst :
   (forall next i, ints_ok i -> i_typ i = TBucket -> in_int32 (i_gburst i) ->
      snd (calc_with next i) <= i_gburst i) /\
@@ -57,27 +57,38 @@ Print Assumptions C07_burst.
 
 (* the global-count strategy hands the global values through *)
 Lemma C07_count_strategy : forall i, i_count i = true ->
-  calc_next_quota i = Some (i_total i, match i_typ i with TBucket => i_gburst i | TMax => 0 end).
+  calc_next_quota i = (i_total i, match i_typ i with TBucket => i_gburst i | TMax => 0 end).
 Proof. exact calc_next_quota_count. Qed.
 
-(* every history: from any well-formed server state (quotas on record in [0, 2^31), the recorded
-   sum not below the true saturated sum, int32 limit and burst) and for every list of batches of
-   honest reports, limit changes (int32) and removals, every clause of the executable spec holds
-   at every step of the model's trace: floor, cap, step_safe, no_growth, burst, over_commit
-   (sum of the quotas above 1 <= max(limit, its previous value)), burst monotone over the history *)
+(* every history of one schema: from any well-formed state (quotas on record in [0, 2^31) for both
+   item types, the recorded sums not below the true saturated sums, limit in [0, 2^31), int32 burst)
+   and for every list of batches of honest report items (typed or not, allocate or count strategy,
+   or a report without the schema), schema changes (limit, burst, item type) and removals, every
+   clause of the executable spec holds at every step of the model's trace: answered, floor, cap,
+   step_safe, no_growth, burst, over_commit (sum of the quotas above 1 <= max(limit, its previous
+   value), per item type), count, burst monotone over the history *)
 Theorem C07_history : forall s bs, wf s -> Forall bop_ok bs ->
-  hist_ok (is_bucket (h_typ s)) (h_limit s) (h_burst s) (h_quotas s) (model_trace s bs)
-  = [true; true; true; true; true; true; true].
+  hist_ok (is_bucket (h_typ s)) (h_limit s) (h_burst s) (h_quotas s) (h_oquotas s) (model_trace s bs)
+  = [true; true; true; true; true; true; true; true; true].
 Proof. exact history_ok. Qed.
 Print Assumptions C07_history.
 
 (* overlap: modelled assumption = the reports of one upstream run one after the other in SOME
    order (per-upstream mutex, sum re-read inside it); for every such order the batch meets the spec *)
 Theorem C07_overlap : forall s rs rs', wf s -> Permutation rs rs' ->
-  step_ok (is_bucket (h_typ s)) (h_limit s) (h_burst s) (h_quotas s) (BReports rs)
-          (snd (model_step s (BReports rs'))) = [true; true; true; true; true; true].
+  step_ok (is_bucket (h_typ s)) (h_limit s) (h_burst s) (h_quotas s) (h_oquotas s) (BReports rs')
+          (snd (model_step s (BReports rs'))) = [true; true; true; true; true; true; true; true].
 Proof. exact overlap_ok. Qed.
 Print Assumptions C07_overlap.
+
+(* several schemas in one upstream: reports carry items for some or all schemas and are refused as a
+   whole when an item type does not fit; for every schema, what the history does to it meets the spec *)
+Theorem C07_multi_history : forall M ops sid s, wfM M -> Forall mop_ok ops ->
+  find_schema sid (m_schemas M) = Some s ->
+  hist_ok (is_bucket (h_typ s)) (h_limit s) (h_burst s) (h_quotas s) (h_oquotas s) (pick sid (mtrace M ops))
+  = [true; true; true; true; true; true; true; true; true].
+Proof. exact multi_history_ok. Qed.
+Print Assumptions C07_multi_history.
 
 (* ---------------- non-vacuity ---------------- *)
 Definition mk t c tot gb al up cur used lvl cl :=
@@ -86,30 +97,38 @@ Definition mk t c tot gb al up cur used lvl cl :=
 
 (* limit 1000 -> 100 with two instances at 400 (the unrepaired code answered -300); a new
    instance with nothing left (it answered 0); total 10000 with the 0.2% floor and nothing left;
-   a growing token bucket; all hypotheses of the per-call theorems are met by these inputs *)
+   a growing token bucket; the upstream level -150 (the unrepaired code divided by zero);
+   all hypotheses of the per-call theorems are met by these inputs *)
 Example C07_calls_nonvacuous :
   map calc_next_quota
     [mk TMax false 100 0 800 0 400 100 30 2; mk TMax false 1000 0 1000 0 0 0 0 3;
-     mk TBucket false 10000 500 10000 50 0 0 0 3; mk TBucket false 10000 500 3000 50 1000 900 95 3]
-  = [Some (1, 0); Some (1, 0); Some (1, 1); Some (1300, 65)]
+     mk TBucket false 10000 500 10000 50 0 0 0 3; mk TBucket false 10000 500 3000 50 1000 900 95 3;
+     mk TBucket false 1000 100 300 (-150) 100 90 95 3]
+  = [(1, 0); (1, 0); (1, 1); (1300, 65); (130, 13)]
   /\ ints_ok (mk TMax false 100 0 800 0 400 100 30 2) /\ 100 < 800 /\ 0 <= 400.
 Proof. vm_compute. repeat split; try reflexivity; discriminate. Qed.
 
 (* a history in which two instances grow to 65 + 63, the limit is lowered to 60 (sum 128 > 60),
    an instance asking for more while over-committed is cut to 1, a newcomer is held at 1, the other
    instance shrinks to 51 (sum 53 <= 60) so that the first may grow again within the limit (57),
-   one instance leaves *)
+   one instance leaves; then the item type changes: the old quotas leave the sum, the first report
+   of the new type starts from nothing *)
 Definition demo_batches : list bop :=
-  [BReports [(1, 0, 0, 0)]; BReports [(2, 0, 0, 0)]; BReports [(1, 40, 100, 4)]; BReports [(2, 40, 100, 8)];
-   BSetLimit 60 0; BReports [(1, 40, 100, 8)]; BReports [(3, 0, 0, 8)]; BReports [(2, 5, 5, 8); (1, 5, 5, 8)];
-   BRemove 1; BReports [(3, 1, 100, 8)]].
+  [BReports [EReport 1 true false 0 0 0 1]; BReports [EReport 2 true false 0 0 0 2];
+   BReports [EReport 1 true false 40 100 4 2]; BReports [EReport 2 true false 40 100 8 2];
+   BSet false 60 0; BReports [EReport 1 true false 40 100 8 2]; BReports [EReport 3 true false 0 0 8 3];
+   BReports [EReport 2 true false 5 5 8 3; EReport 1 true false 5 5 8 3];
+   BRemove 1; BReports [EReport 3 true false 1 100 8 2];
+   BSet true 500 50; BReports [EReport 2 true false 5 50 0 2; EDrop 3]].
 Example C07_history_nonvacuous :
-  wf (init TMax 1000 0 0) /\ Forall bop_ok demo_batches /\
-  map (fun ob => (answered (o_ans (snd ob)), rec_sum (o_quotas (snd ob)))) (model_trace (init TMax 1000 0 0) demo_batches)
-  = [([(50, 0)], 50); ([(48, 0)], 98); ([(65, 0)], 113); ([(63, 0)], 128); ([], 128);
-     ([(1, 0)], 64); ([(1, 0)], 65); ([(51, 0); (5, 0)], 57); ([], 52); ([(2, 0)], 53)].
+  wf (sinit TMax 1000 0) /\ Forall bop_ok demo_batches /\
+  map (fun ob => (o_ans (snd ob), rec_sum (o_quotas (snd ob)), rec_sum (o_oquotas (snd ob))))
+      (model_trace (sinit TMax 1000 0) demo_batches)
+  = [([Some (50, 0)], 50, 0); ([Some (48, 0)], 98, 0); ([Some (65, 0)], 113, 0); ([Some (63, 0)], 128, 0);
+     ([], 128, 0); ([Some (1, 0)], 64, 0); ([Some (1, 0)], 65, 0); ([Some (51, 0); Some (5, 0)], 57, 0);
+     ([], 52, 0); ([Some (2, 0)], 53, 0); ([], 0, 53); ([Some (25, 3)], 25, 0)].
 Proof.
-  split; [apply wf_init; unfold in_int32, two31; lia|]. split.
+  split; [apply wf_sinit; unfold in_int32, two31; lia|]. split.
   - repeat constructor; unfold in_int32, two31; lia.
   - vm_compute. reflexivity.
 Qed.
